@@ -96,6 +96,7 @@ class FunctionResult:
         self.reached = []
         self.notes = list(spec.notes)
         self.outcomes = {}
+        self.pruned = False
 
 
 def _exc_outcome(spec, env, e, c):
@@ -160,6 +161,10 @@ def verify(spec):
                     raise OutOfSubset('%s: %s: %s' % (spec.label, type(e).__name__, e))
                 if getattr(e, '_pyvc_internal', False):
                     raise
+                if getattr(e, '_pyvc_model_attr', False):
+                    # a member of a *model* class that the sidecar does not define: never reported as a violation
+                    raise OutOfSubset('%s: %s (the code uses a member the sidecar model does not know)'
+                                      % (spec.label, e))
                 outcomes['raise:' + type(e).__name__] = outcomes.get('raise:' + type(e).__name__, 0) + 1
                 env['__traceback'] = traceback.format_exc(limit=6)
                 if os.environ.get('PYVC_TB'):
@@ -212,6 +217,11 @@ def verify(spec):
             if ob.status == 'refuted' and ob.model is not None:
                 rec.model = model_summary(ob.model)
             res.obligations.append(rec)
+        res.pruned = bool(getattr(c, 'pruned', False))
+        if res.pruned and not any(o.status == 'refuted' for o in res.obligations):
+            res.error = ('out-of-subset', '%s: a recursive helper without contract was unrolled to depth %d and the '
+                         'deeper paths were abandoned; nothing is proved by this run (the helper needs a contract)'
+                         % (spec.label, values.AUTO_DEPTH_LIMIT))
         if not c.obligations:
             res.error = ('checker-error', '%s generated zero obligations' % spec.label)
     except OutOfSubset as e:
